@@ -51,7 +51,9 @@ def run_case(rs, ctx):
     queries = gen.gen_ops(rs, cfg, sh, int(rs.integers(1, 7)), ["predict", "predict_expectations"],
                           sizes=(1, 2, 3, 5, 8) if rs.integers(3) else (1, 3, 40, 130))
     pre = []
-    if rs.integers(3) == 0:
+    rs_main = rs
+    if ctx.index % 3 == 2:
+        rs = np.random.default_rng([int(ctx.seed), 10, int(ctx.index), 8])  # own stream: the other two thirds of the cases are unchanged
         # the continuation starts with a full refit whose data omits an arm, queried straight away: whatever the queries left
         # behind for that arm is not overwritten by the training of the refit
         for _ in range(12):
@@ -62,6 +64,7 @@ def run_case(rs, ctx):
                 pre = f + gen.gen_ops(rs, cfg, sh, 2, ["predict_expectations", "predict"])
                 ctx.count("continuations_starting_with_a_refit_that_omits_an_arm")
                 break
+    rs = rs_main
     cont = pre + gen.gen_continuation(rs, cfg, sh)
     for o in cont + queries:
         if o["op"] in ("predict", "predict_expectations") and o.get("X") is not None and gen.is_ctx(cfg) and rs.integers(3) == 0:
